@@ -26,7 +26,7 @@ ASSUMPTIONS = ["the wall colour is opaque black in both modes (gray map at -1 wi
 NSHARDS = {"quick": 16, "thorough": 16}
 THRESHOLDS = {"quick": {"c20:plots": 1200, "c20:kind:LatticeMaze": 200, "c20:kind:TargetedLatticeMaze": 200, "c20:kind:SolvedMaze": 200,
                         "c20:with-values": 300, "c20:without-values": 300, "c20:strips-checked": 20000, "c20:blocks-checked": 10000,
-                        "c20:true-path": 500, "c20:predicted-path": 500, "c20:ascii": 1200, "c20:callers-path-arrays-overwritten-before-plot": 300, "c20:ascii-with-options": 3600, "c20:oblong": 100,
+                        "c20:true-path": 500, "c20:predicted-path": 500, "c20:ascii": 1200, "c20:refused-batch-of-paths": 300, "c20:plotted-twice-without-closing": 150, "c20:callers-path-arrays-overwritten-before-plot": 300, "c20:ascii-with-options": 3600, "c20:oblong": 100,
                         **{f"c20:ul:{u}": 100 for u in (3, 4, 5, 9, 14, 19, 31)}, "c20:int8-paths": 300, "c20:values-contain-minus-one": 200, "c20:negative-values": 50, "c20:constant-values": 50,
                         "c20:replots": 900, "c20:many-predicted-paths": 100, "c20:predicted-paths-sharing-a-label": 60, "c20:rejected-values-call": 200, "c20:drawn-images": 2000, "c20:replot-plain-after-values": 300, "c20:detour-solution": 30}}
 THRESHOLDS["thorough"] = dict(THRESHOLDS["quick"])
@@ -277,6 +277,27 @@ def run(ctx):
                         mp.add_predicted_path(arg, label="rollout")
                     else:
                         mp.add_predicted_path(arg, path_fmt=shared_fmt)
+                if j % 3 == 1 and preds:
+                    # a batch of further roll-outs that the plot refuses (its first element is no path - an undecodable roll-out);
+                    # the caller catches the error and goes on with the plot: everything added before must still be drawn
+                    for bad_batch in ([None, np.array(preds[0])], [7, [tuple(x) for x in preds[0]]], ["nope"]):
+                        try:
+                            mp.add_multiple_paths(bad_batch)
+                            ctx.tally("c20:odd-batch-of-paths-accepted(not judged)")
+                            raise _SkipCase()
+                        except _SkipCase:
+                            raise
+                        except Exception:  # noqa: BLE001
+                            ctx.tally("c20:refused-batch-of-paths")
+                if j % 5 == 2:
+                    # the plot is drawn once, then changes (cell values added / another roll-out), and is drawn again while the first
+                    # figure is still open: the second picture is the one judged
+                    mp.plot()
+                    if values is None and j % 2 == 0:
+                        values = rng.random((R, C)) * 2 + 0.25
+                        mp.add_node_values(values.copy())
+                        case["values"] = True
+                    ctx.tally("c20:plotted-twice-without-closing")
                 if j % 2 == 0 and handed_over:
                     # a path is the list of cells it had when it was added: the caller's buffers are overwritten before plotting
                     for arr_h in handed_over:
